@@ -411,7 +411,7 @@ pub fn sys_from_name(name: &str) -> Option<Sys> {
 
 pub fn run(tier: Tier) -> i32 {
     let rep = Report::new("C07", tier);
-    rep.set_rule("for each configuration (trains = (PDU length, fragments) on fragment ids 0..k-1, memory of n slots) breadth-first search to closure over advance(i) / restart(i) / stray(j) with state = (next index per train, real receiver snapshot); strays: intermediate/end of ids aliasing each train's slot (id+n, id+2n), of an id mapping to an empty slot, duplicate end of an idle train, complete packets (3-byte, broadcast and re-use label, the latter checked against the nearest preceding start/complete label), padding, oversize aliasing intermediate, (some configurations) a foreign first fragment claiming an aliasing slot; in some configurations trains whose first fragment carries a re-use label, offered only when a start/complete packet precedes them in the frame (padding ends the frame) and expected under the label of that packet; in some configurations trains whose first fragment carries a header extension (part of the delivered metadata); oracle: delivery exactly at the own end fragment with own bytes/metadata, no other train's reassembly data altered by any op, strays leave the memory unchanged, every packet is presented followed by three non-padding bytes and must consume exactly its own length; distinct = (op kind, outcome); number of distinct receiver memories per index vector reported");
+    rep.set_rule("for each configuration (trains = (PDU length, fragments) on fragment ids 0..k-1, memory of n slots) breadth-first search to closure over advance(i) / restart(i) / stray(j) with state = (next index per train, real receiver snapshot); strays: intermediate/end of ids aliasing each train's slot (id+n, id+2n), of an id mapping to an empty slot, duplicate end of an idle train, complete packets (3-byte, broadcast and re-use label, the latter checked against the nearest preceding start/complete label), padding, oversize aliasing intermediate, (some configurations) a foreign first fragment claiming an aliasing slot; in some configurations trains whose first fragment carries a re-use label, offered only when a start/complete packet precedes them in the frame (padding ends the frame) and expected under the label of that packet; in some configurations trains whose first fragment carries a header extension (part of the delivered metadata); oracle: delivery exactly at the own end fragment with own bytes/metadata, no other train's reassembly data altered by any op, strays leave the memory unchanged, every packet is presented followed by three non-padding bytes and must consume exactly its own length; distinct = (op kind, outcome); number of distinct receiver memories per index vector reported. Second model (closure): three configurations in which every packet is produced by the REAL encapsulator at the moment the interleaving asks for it (encap / encap_ext first fragments, encap_frag continuations, complete packets with the trains' labels in between; trains share labels, so re-use substitution depends on the interleaving) and fed at once to the real receiver, plus receiver-side strays of unknown ids; same delivery oracle incl. the extension list");
     rep.assume("trains are built by the reference printer (independent of the crate's encapsulator); PDUs of 4..12 bytes, 2..5 fragments");
     let mut configs: Vec<(usize, Vec<(usize, usize)>, bool, Vec<usize>, Vec<usize>)> = vec![
         (2, vec![(4, 2), (6, 3)], false, vec![], vec![]),
@@ -463,5 +463,221 @@ pub fn run(tier: Tier) -> i32 {
         let i = ex.states.len() - 1;
         rep.sample(ci as u64, || json!({"config": format!("slots={} trains={:?}", slots, shapes), "states": ex.states.len(), "one_interleaving": ex.path(i).iter().map(|o| sys.op_json(o)).collect::<Vec<_>>()}));
     }
+    run_live(&rep);
     rep.finish(true)
+}
+
+// ---------------------------------------------------------------------------------------
+// Second model: the packets come from the REAL encapsulator, in the order of the interleaving
+// ---------------------------------------------------------------------------------------
+//
+// With reference-printed trains the bytes of a train do not depend on the interleaving. A real sender's do: whether a
+// first fragment carries its label or a re-use label depends on which start/complete packet it emitted just before. This
+// model keeps the real Encapsulator in the state, produces every packet at the moment the interleaving asks for it
+// (encap / encap_ext for first fragments, encap_frag for the rest, encap for complete packets in between) and feeds it to
+// the real receiver at once; strays of unknown ids are fed to the receiver only.
+
+use crate::tx::*;
+use dvb_gse_rust::gse_encap::Encapsulator;
+use std::hash::{Hash, Hasher};
+
+#[derive(Clone, Debug)]
+pub struct LTrain {
+    pub id: u8,
+    pub label: Lbl,
+    pub pt: u16,
+    pub pdu: Vec<u8>,
+    pub exts: Vec<ExtS>,
+    pub first_buf: usize,
+    pub next_buf: usize,
+}
+
+#[derive(Clone, Debug)]
+pub struct LSt {
+    pub enc: Encapsulator<DefaultCrc>,
+    pub key: String,
+    /// per train: None = not started, Some(ctx) = in progress; done[i] set when delivered
+    pub ctx: Vec<Option<Ctx>>,
+    pub done: Vec<bool>,
+    pub rx: RxS,
+}
+impl PartialEq for LSt {
+    fn eq(&self, o: &LSt) -> bool {
+        self.key == o.key && self.ctx == o.ctx && self.done == o.done && self.rx == o.rx
+    }
+}
+impl Eq for LSt {}
+impl Hash for LSt {
+    fn hash<H: Hasher>(&self, h: &mut H) {
+        self.key.hash(h);
+        self.ctx.hash(h);
+        self.done.hash(h);
+        self.rx.hash(h);
+    }
+}
+
+#[derive(Clone, Debug, PartialEq, Eq)]
+pub enum LOp {
+    Advance(usize),
+    /// a complete packet with the label of train i, from the same sender
+    Complete(usize),
+    /// rejected continuation packet of an unknown id, receiver side only (0: intermediate, 1: end)
+    Stray(u8),
+}
+
+pub struct LSys {
+    pub slots: usize,
+    pub trains: Vec<LTrain>,
+}
+
+impl LSys {
+    pub fn new(variant: usize) -> LSys {
+        let ext = vec![(0x0202u16, vec![0xE1u8, 0xE2])];
+        // first buffer = first-fragment header (with the full label) + 3: the PDUs (>= 16 bytes) never fit a complete
+        // packet in it, with or without re-use substitution
+        let t = |id: u8, label: Lbl, n: usize, with_ext: bool, next_buf: usize| LTrain { id, label, pt: 0x0800, pdu: pdu(n, (id % 4) as u8), exts: if with_ext { ext.clone() } else { vec![] }, first_buf: 7 + label.wire_len() + if with_ext { 4 } else { 0 } + 3, next_buf };
+        let trains = match variant {
+            // two trains sharing a 6-byte label (one through encap_ext), one with another label
+            0 => vec![t(0, L6A, 20, true, 12), t(1, L6A, 18, false, 10), t(2, L3A, 16, true, 64)],
+            // both same-label trains through encap_ext, 3-byte label
+            1 => vec![t(0, L3A, 16, true, 10), t(1, L3A, 17, true, 64), t(2, Lbl::Bcast, 16, false, 9)],
+            _ => vec![t(0, L6B, 16, false, 9), t(1, L6B, 21, true, 11)],
+        };
+        LSys { slots: 4, trains }
+    }
+}
+
+impl System for LSys {
+    type State = LSt;
+    type Op = LOp;
+    fn init(&self) -> Vec<LSt> {
+        let enc = Encapsulator::new(DefaultCrc {});
+        let n = self.trains.len();
+        vec![LSt { key: format!("{:?}", enc), enc, ctx: vec![None; n], done: vec![false; n], rx: RxS::new(self.slots, 32, &vec![32; n + 1]) }]
+    }
+    fn ops(&self, s: &LSt) -> Vec<LOp> {
+        let mut v = vec![];
+        for i in 0..self.trains.len() {
+            if !s.done[i] {
+                v.push(LOp::Advance(i));
+            }
+            v.push(LOp::Complete(i));
+        }
+        v.push(LOp::Stray(0));
+        v.push(LOp::Stray(1));
+        v
+    }
+    fn step(&self, s: &LSt, op: &LOp, acc: &mut Acc) -> StepOut<LSt> {
+        let mut n = s.clone();
+        let mut viols: Vec<(String, String)> = vec![];
+        acc.calls += 1;
+        let feed = |n: &mut LSt, bytes: &[u8], acc: &mut Acc| -> DecapOut {
+            let (out, mut rx2) = step_decap(&n.rx, &DefaultCrc {}, &TableMgr::none(), bytes);
+            acc.calls += 1;
+            acc.compared += 1;
+            if let DecapOut::Completed { buf, .. } = &out {
+                rx2.mem.free.push(vec![0u8; buf.len()]);
+            }
+            crate::rxmodel::normalise(&mut rx2);
+            n.rx = rx2;
+            out
+        };
+        match op {
+            LOp::Stray(k) => {
+                let pkt = if *k == 0 { Desc::inter(200, &[0xD1, 0xD2]).print() } else { Desc::end(201, &[0xD3], 0x0102_0304).print() };
+                let out = feed(&mut n, &pkt, acc);
+                acc.outcome(&format!("live:stray:{}", out.class()));
+                if matches!(out, DecapOut::Completed { .. } | DecapOut::Fragmented { .. }) {
+                    viols.push(("C07|live|stray-accepted".into(), format!("{:?}: a continuation packet of an unknown id is accepted: {}", op, out.brief())));
+                }
+            }
+            LOp::Complete(i) => {
+                let t = &self.trains[*i];
+                let mut b = vec![0u8; 32];
+                let small = [0x70u8 + *i as u8];
+                let out = do_encap(&mut n.enc, &small, 0, 0x86DD, t.label, &mut b);
+                acc.outcome(&format!("live:complete:{}", out.class()));
+                match out {
+                    EncOut::Completed(len) => {
+                        let d = feed(&mut n, &b[..len.min(b.len())], acc);
+                        let ok = matches!(&d, DecapOut::Completed { buf, meta, consumed } if meta.pdu_len == 1 && buf[0] == small[0] && meta.label == t.label && meta.pt == 0x86DD && *consumed == len);
+                        if !ok {
+                            viols.push((format!("C07|live|complete-not-delivered|{}", d.class()), format!("{:?}: complete packet {} with label {} -> {}", op, hex(&b[..len.min(b.len())]), t.label.short(), d.brief())));
+                        }
+                    }
+                    other => {
+                        viols.push((format!("C07|live|sender-refuses-complete|{}", other.class()), format!("{:?}: encap of a 1-byte PDU into 32 bytes -> {:?}", op, other)));
+                        return StepOut { next: None, viols };
+                    }
+                }
+            }
+            LOp::Advance(i) => {
+                let t = &self.trains[*i];
+                let (out, buf) = match s.ctx[*i] {
+                    None => {
+                        let mut b = vec![0u8; t.first_buf];
+                        let o = if t.exts.is_empty() { do_encap(&mut n.enc, &t.pdu, t.id, t.pt, t.label, &mut b) } else { do_encap_ext(&mut n.enc, &t.pdu, t.id, t.pt, t.label, &mut b, &t.exts) };
+                        (o, b)
+                    }
+                    Some(c) => {
+                        let mut b = vec![0u8; t.next_buf];
+                        (do_encap_frag(&n.enc, &t.pdu, c, &mut b), b)
+                    }
+                };
+                let started = s.ctx[*i].is_some();
+                acc.outcome(&format!("live:{}:{}", if started { "continue" } else { "first" }, out.class()));
+                let len = match &out {
+                    EncOut::Fragmented(l, c) => {
+                        n.ctx[*i] = Some(*c);
+                        *l
+                    }
+                    EncOut::Completed(l) => *l,
+                    other => {
+                        viols.push((format!("C07|live|sender-refuses|{}|{}", if started { "continue" } else { "first" }, other.class()), format!("{:?}: the sender answers {:?} (buffer {})", op, other, buf.len())));
+                        return StepOut { next: None, viols };
+                    }
+                };
+                let pkt = &buf[..len.min(buf.len())];
+                let d = feed(&mut n, pkt, acc);
+                match (&out, &d) {
+                    (EncOut::Fragmented(..), DecapOut::Fragmented { meta, consumed }) => {
+                        if meta.label != t.label || meta.pt != t.pt || *consumed != len {
+                            viols.push(("C07|live|fragment-metadata".into(), format!("{:?}: packet {} -> {} (train label {}, pt {:#06x})", op, hex(pkt), d.brief(), t.label.short(), t.pt)));
+                        }
+                    }
+                    (EncOut::Completed(_), DecapOut::Completed { buf: got, meta, consumed }) if started => {
+                        n.done[*i] = true;
+                        n.ctx[*i] = None;
+                        if meta.pdu_len != t.pdu.len() || got[..t.pdu.len().min(got.len())] != t.pdu[..] || meta.label != t.label || meta.pt != t.pt || meta.exts != t.exts || *consumed != len {
+                            viols.push(("C07|live|delivered-differs".into(), format!("{:?}: train {} (frag id {}) delivered as {} (expected pdu {} label {} pt {:#06x} extensions {:?})", op, i, t.id, d.brief(), hex(&t.pdu), t.label.short(), t.pt, t.exts)));
+                        }
+                    }
+                    (_, other) => {
+                        viols.push((format!("C07|live|train-packet-refused|{}|{}", if started { if matches!(out, EncOut::Completed(_)) { "end" } else { "intermediate" } } else { "first" }, other.class()), format!("{:?}: packet {} of train {} (frag id {}, label {}, {}) -> {}", op, hex(pkt), i, t.id, t.label.short(), if t.exts.is_empty() { "no extension" } else { "with extension" }, other.brief())));
+                        return StepOut { next: None, viols };
+                    }
+                }
+            }
+        }
+        n.key = format!("{:?}", n.enc);
+        StepOut { next: Some(n), viols }
+    }
+    fn op_json(&self, op: &LOp) -> Value {
+        json!(format!("{:?}", op))
+    }
+}
+
+pub fn run_live(rep: &Report) {
+    for variant in 0..3usize {
+        let sys = LSys::new(variant);
+        let ex = explore(&sys, &Limits { max_states: 2_000_000, max_depth: 10_000 }, rep, &format!("live-sender variant={}", variant));
+        if !ex.closed {
+            rep.cap("a live-sender configuration did not close");
+        }
+        let all_done = ex.states.iter().any(|s| s.done.iter().all(|&d| d));
+        rep.part(json!({"live_sender_variant": variant, "states": ex.states.len(), "all_trains_delivered_state_reached": all_done}));
+        if !all_done && rep.n_viol_sigs() == 0 {
+            rep.violation("C07|live|vacuity|never-all-delivered", variant as u64, || ("no interleaving delivers all trains of the live-sender model".into(), json!({"variant": variant})));
+        }
+    }
 }
